@@ -6,8 +6,9 @@ import TinyVerif.Proofs.RingLemmas
 namespace TinyVerif.Ring
 
 /-- `inq` = published but not yet consumed submissions, `unpub` = filled but not yet published,
-`cinq` = posted but not yet reaped completions.  `c`/`cc` are the initial counter values. -/
-structure Inv (k kc c cc : Nat) (s : St) (inq unpub cinq : List Ent) : Prop where
+`cinq` = posted but not yet reaped completions, `hold` = reaped but not yet released (`release_pending`).
+`c`/`cc` are the initial counter values. -/
+structure Inv (k kc c cc : Nat) (s : St) (inq unpub cinq hold : List Ent) : Prop where
   hk : k ≤ 30
   hkc : kc ≤ 30
   sqE : s.sqEntries = 2 ^ k
@@ -23,30 +24,35 @@ structure Inv (k kc c cc : Nat) (s : St) (inq unpub cinq : List Ent) : Prop wher
   khead_eq : s.sqKHead = (c + s.consumed.length) % W
   sqGood : Good k (sqShift s) s.sqMem (c + s.consumed.length) (inq ++ unpub)
   posted_eq : s.posted = s.reaped ++ cinq
-  ccap : cinq.length ≤ 2 ^ kc
+  /-- `hold`: the reaped entries whose slot is not yet released to the kernel (none, or the last one) -/
+  hold_suffix : hold <:+ s.reaped
+  hold_len : hold.length = if s.relPending then 1 else 0
+  ccap : hold.length + cinq.length ≤ 2 ^ kc
   cktail_eq : s.cqKTail = (cc + s.posted.length) % W
-  ckhead_eq : s.cqKHead = (cc + s.reaped.length) % W
-  cqGood : Good kc (cqShift s) s.cqMem (cc + s.reaped.length) cinq
+  /-- the kernel-visible head lags behind what was reaped by the held entry -/
+  ckhead_eq : s.cqKHead = (cc + (s.reaped.length - hold.length)) % W
+  /-- the completion entry array holds the held entry and the unreaped ones -/
+  cqGood : Good kc (cqShift s) s.cqMem (cc + (s.reaped.length - hold.length)) (hold ++ cinq)
 
 theorem sqShift_le (s : St) : sqShift s ≤ 1 := by unfold sqShift; omega
 theorem cqShift_le (s : St) : cqShift s ≤ 1 := by unfold cqShift; omega
 
 theorem inv_init (flags k kc c cc : Nat) (hk : k ≤ 30) (hkc : kc ≤ 30) (hc : c < W) (hcc : cc < W) :
-    Inv k kc c cc (init flags k kc c cc) [] [] [] := by
+    Inv k kc c cc (init flags k kc c cc) [] [] [] [] := by
   constructor <;> simp [init, Good, Nat.mod_eq_of_lt hc, Nat.mod_eq_of_lt hcc, hk, hkc]
 
 section
-variable {k kc c cc : Nat} {s : St} {inq unpub cinq : List Ent}
+variable {k kc c cc : Nat} {s : St} {inq unpub cinq hold : List Ent}
 
-theorem Inv.filled_len (h : Inv k kc c cc s inq unpub cinq) :
+theorem Inv.filled_len (h : Inv k kc c cc s inq unpub cinq hold) :
     s.filled.length = s.consumed.length + inq.length + unpub.length := by
   rw [h.filled_eq, h.flushed_eq]; simp [List.length_append, Nat.add_assoc]
 
-theorem Inv.flushed_len (h : Inv k kc c cc s inq unpub cinq) :
+theorem Inv.flushed_len (h : Inv k kc c cc s inq unpub cinq hold) :
     s.flushed.length = s.consumed.length + inq.length := by
   rw [h.flushed_eq]; simp [List.length_append]
 
-theorem Inv.posted_len (h : Inv k kc c cc s inq unpub cinq) :
+theorem Inv.posted_len (h : Inv k kc c cc s inq unpub cinq hold) :
     s.posted.length = s.reaped.length + cinq.length := by
   rw [h.posted_eq]; simp [List.length_append]
 
@@ -96,7 +102,7 @@ theorem step_post (cd : Code) (s : St) (vs : List Nat) :
 
 /-! ### application: get_next_sqe_slot (+ fill) -/
 
-theorem getNextSqeSlot_fixed (h : Inv k kc c cc s inq unpub cinq) :
+theorem getNextSqeSlot_fixed (h : Inv k kc c cc s inq unpub cinq hold) :
     getNextSqeSlot .fixed s =
       if inq.length + unpub.length < 2 ^ k then
         .ok { s with tail := (c + (s.filled.length + 1)) % W }
@@ -115,11 +121,11 @@ theorem getNextSqeSlot_fixed (h : Inv k kc c cc s inq unpub cinq) :
   · rw [if_neg hlt, if_neg]
     rw [← succ_mod]; exact fun hx => hlt (ht.mp hx)
 
-theorem inv_get (h : Inv k kc c cc s inq unpub cinq) (v : Nat) :
+theorem inv_get (h : Inv k kc c cc s inq unpub cinq hold) (v : Nat) :
     (inq.length + unpub.length < 2 ^ k →
       (step .fixed s (.get v)).2 = .slot (slotOf k (sqShift s) (c + s.filled.length)) ∧
       Inv k kc c cc (step .fixed s (.get v)).1 inq
-        (unpub ++ [⟨slotOf k (sqShift s) (c + s.filled.length), v⟩]) cinq) ∧
+        (unpub ++ [⟨slotOf k (sqShift s) (c + s.filled.length), v⟩]) cinq hold) ∧
     (¬ inq.length + unpub.length < 2 ^ k → step .fixed s (.get v) = (s, .noSlot)) := by
   constructor
   · intro hlt
@@ -143,6 +149,8 @@ theorem inv_get (h : Inv k kc c cc s inq unpub cinq) (v : Nat) :
         simp only [← List.append_assoc]
         exact hpush
       posted_eq := h.posted_eq
+      hold_suffix := h.hold_suffix
+      hold_len := h.hold_len
       ccap := h.ccap
       cktail_eq := h.cktail_eq
       ckhead_eq := h.ckhead_eq
@@ -152,7 +160,7 @@ theorem inv_get (h : Inv k kc c cc s inq unpub cinq) (v : Nat) :
 
 /-! ### application: flush_submission_queue -/
 
-theorem flush_fixed (h : Inv k kc c cc s inq unpub cinq) :
+theorem flush_fixed (h : Inv k kc c cc s inq unpub cinq hold) :
     flushSubmissionQueue .fixed s =
       .ok (if s.head ≠ s.tail then { s with head := s.tail, sqKTail := s.tail, flushed := s.filled } else s)
         (inq.length + unpub.length) := by
@@ -165,9 +173,9 @@ theorem flush_fixed (h : Inv k kc c cc s inq unpub cinq) :
   · simp only [if_pos hne, hcnt]
   · simp only [if_neg hne, hcnt]
 
-theorem inv_flush (h : Inv k kc c cc s inq unpub cinq) :
+theorem inv_flush (h : Inv k kc c cc s inq unpub cinq hold) :
     (step .fixed s .flush).2 = .flushed (inq.length + unpub.length) ∧
-    ∃ inq' unpub', Inv k kc c cc (step .fixed s .flush).1 inq' unpub' cinq ∧
+    ∃ inq' unpub', Inv k kc c cc (step .fixed s .flush).1 inq' unpub' cinq hold ∧
       (step .fixed s .flush).1.filled = s.filled ∧ (step .fixed s .flush).1.consumed = s.consumed := by
   rw [step_flush, flush_fixed h]
   refine ⟨rfl, ?_⟩
@@ -185,6 +193,8 @@ theorem inv_flush (h : Inv k kc c cc s inq unpub cinq) :
       khead_eq := h.khead_eq
       sqGood := by simp only [List.append_nil]; exact h.sqGood
       posted_eq := h.posted_eq
+      hold_suffix := h.hold_suffix
+      hold_len := h.hold_len
       ccap := h.ccap
       cktail_eq := h.cktail_eq
       ckhead_eq := h.ckhead_eq
@@ -194,79 +204,168 @@ theorem inv_flush (h : Inv k kc c cc s inq unpub cinq) :
 
 /-! ### application: get_next_cqe (+ read of the returned entry) -/
 
-theorem reap_fixed_nil (h : Inv k kc c cc s inq unpub cinq) (hnil : cinq = []) :
-    getNextCqe .fixed s = .ok s none := by
-  have heq := eq_test cc s.reaped.length cinq.length (by simp [hnil])
-  rw [← h.posted_len, ← h.cktail_eq, ← h.ckhead_eq] at heq
-  have : s.cqKTail = s.cqKHead := heq.mpr (by simp [hnil])
-  unfold getNextCqe cqEmptyTest
-  simp only [this, beq_self_eq_true, if_true]
+theorem Inv.hold_le (h : Inv k kc c cc s inq unpub cinq hold) : hold.length ≤ s.reaped.length :=
+  h.hold_suffix.length_le
 
-theorem reap_fixed_cons (h : Inv k kc c cc s inq unpub cinq) (e : Ent) (rest : List Ent)
+/-- the first statement of `get_next_cqe`: `if release_pending { release_pending = false; advance(1) }` -/
+def relStep (s : St) : St :=
+  if s.relPending then { s with relPending := false, cqKHead := (s.cqKHead + 1) % W } else s
+
+theorem getNextCqe_fixed (s : St) : getNextCqe .fixed s =
+    if ((relStep s).cqKTail == (relStep s).cqKHead) = true then .ok (relStep s) none
+    else .ok { relStep s with relPending := true }
+      (some (index (relStep s).cqKHead (relStep s).cqMask (cqShift (relStep s)))) := rfl
+
+theorem relStep_frame (s : St) :
+    (relStep s).reaped = s.reaped ∧ (relStep s).posted = s.posted ∧ (relStep s).consumed = s.consumed ∧
+    (relStep s).flags = s.flags ∧ (relStep s).cqMem = s.cqMem ∧ (relStep s).filled = s.filled ∧
+    (relStep s).flushed = s.flushed := by
+  unfold relStep
+  split <;> simp
+
+/-- releasing the held entry: nothing is held any more, the visible head has caught up -/
+theorem inv_rel (h : Inv k kc c cc s inq unpub cinq hold) : Inv k kc c cc (relStep s) inq unpub cinq [] := by
+  have hl := h.hold_len
+  have hle := h.hold_le
+  unfold relStep
+  by_cases hp : s.relPending = true
+  · rw [if_pos hp]
+    rw [if_pos hp] at hl
+    have hg := h.cqGood
+    match hold, hl, hle, hg, h.ccap with
+    | [x], _, hle, hg, hcc =>
+      simp only [List.length_cons, List.length_nil, List.cons_append, List.nil_append] at hle hg hcc
+      obtain ⟨_, _, g3⟩ := hg
+      exact {
+        hk := h.hk, hkc := h.hkc, sqE := h.sqE, sqM := h.sqM, cqE := h.cqE, cqM := h.cqM
+        flushed_eq := h.flushed_eq
+        filled_eq := h.filled_eq
+        cap := h.cap
+        tail_eq := h.tail_eq
+        head_eq := h.head_eq
+        ktail_eq := h.ktail_eq
+        khead_eq := h.khead_eq
+        sqGood := h.sqGood
+        posted_eq := h.posted_eq
+        hold_suffix := List.nil_suffix
+        hold_len := rfl
+        ccap := by simp only [List.length_nil]; omega
+        cktail_eq := h.cktail_eq
+        ckhead_eq := by
+          show (s.cqKHead + 1) % W = _
+          rw [h.ckhead_eq, succ_mod]
+          simp only [List.length_cons, List.length_nil]
+          congr 1; omega
+        cqGood := by
+          simp only [List.length_nil, List.nil_append]
+          have e : cc + (s.reaped.length - 0) = cc + (s.reaped.length - 1) + 1 := by omega
+          rw [e]; exact g3 }
+  · rw [if_neg hp]
+    rw [if_neg hp] at hl
+    have : hold = [] := List.eq_nil_of_length_eq_zero hl
+    subst this
+    exact h
+
+theorem reap_fixed_nil (h : Inv k kc c cc s inq unpub cinq hold) (hnil : cinq = []) :
+    getNextCqe .fixed s = .ok (relStep s) none := by
+  have h0 := inv_rel h
+  have heq := eq_test cc (relStep s).reaped.length cinq.length (by simp [hnil])
+  have hpl := h0.posted_len
+  have hk := h0.ckhead_eq
+  simp only [List.length_nil, Nat.sub_zero] at hk
+  rw [← hpl, ← h0.cktail_eq, ← hk] at heq
+  have : (relStep s).cqKTail = (relStep s).cqKHead := heq.mpr (by simp [hnil])
+  rw [getNextCqe_fixed, if_pos (by simpa using this)]
+
+theorem reap_fixed_cons (h : Inv k kc c cc s inq unpub cinq hold) (e : Ent) (rest : List Ent)
     (hc : cinq = e :: rest) :
-    getNextCqe .fixed s =
-      .ok { s with cqKHead := (cc + (s.reaped.length + 1)) % W } (some e.slot) ∧
+    getNextCqe .fixed s = .ok { relStep s with relPending := true } (some e.slot) ∧
     s.cqMem e.slot = e.val := by
+  have h0 := inv_rel h
   have hE := two_pow_le_30 h.hkc
-  have hcap := h.ccap
-  have heq := eq_test cc s.reaped.length cinq.length (by omega)
-  rw [← h.posted_len, ← h.cktail_eq, ← h.ckhead_eq] at heq
-  have hne : ¬ s.cqKTail = s.cqKHead := by
+  have hcap := h0.ccap
+  simp only [List.length_nil, Nat.zero_add] at hcap
+  have heq := eq_test cc (relStep s).reaped.length cinq.length (by omega)
+  have hk := h0.ckhead_eq
+  simp only [List.length_nil, Nat.sub_zero] at hk
+  rw [← h0.posted_len, ← h0.cktail_eq, ← hk] at heq
+  have hne : ¬ (relStep s).cqKTail = (relStep s).cqKHead := by
     intro hx; have := heq.mp hx; simp [hc] at this
-  have hb : (s.cqKTail == s.cqKHead) = false := by simpa using hne
-  have hidx := index_eq kc (cqShift s) (cc + s.reaped.length) h.hkc (cqShift_le s)
-  rw [← h.ckhead_eq, ← h.cqM] at hidx
-  have hg := h.cqGood
+  have hidx := index_eq kc (cqShift (relStep s)) (cc + (relStep s).reaped.length) h0.hkc (cqShift_le _)
+  rw [← hk, ← h0.cqM] at hidx
+  have hg := h0.cqGood
+  simp only [List.length_nil, Nat.sub_zero, List.nil_append] at hg
   rw [hc] at hg
   obtain ⟨g1, g2, _⟩ := hg
+  rw [(relStep_frame s).2.2.2.2.1] at g2
   refine ⟨?_, g2⟩
-  unfold getNextCqe cqEmptyTest
-  simp only [hb, Bool.false_eq_true, if_false, hidx, ← g1]
-  rw [h.ckhead_eq, succ_mod]
+  rw [getNextCqe_fixed, if_neg (by simpa using hne), hidx, ← g1]
 
-theorem inv_reap (h : Inv k kc c cc s inq unpub cinq) :
-    (cinq = [] → step .fixed s .reap = (s, .noCqe)) ∧
+theorem inv_reap (h : Inv k kc c cc s inq unpub cinq hold) :
+    (cinq = [] → (step .fixed s .reap).2 = .noCqe ∧ (step .fixed s .reap).1.reaped = s.reaped ∧
+      (step .fixed s .reap).1.cqMem = s.cqMem ∧
+      Inv k kc c cc (step .fixed s .reap).1 inq unpub [] []) ∧
     (∀ e rest, cinq = e :: rest →
       (step .fixed s .reap).2 = .cqe e.val ∧
       (step .fixed s .reap).1.reaped = s.reaped ++ [e] ∧
-      Inv k kc c cc (step .fixed s .reap).1 inq unpub rest) := by
+      (step .fixed s .reap).1.cqMem = s.cqMem ∧
+      Inv k kc c cc (step .fixed s .reap).1 inq unpub rest [e]) := by
+  have h0 := inv_rel h
+  have fr := relStep_frame s
   constructor
   · intro hnil
     rw [step_reap, reap_fixed_nil h hnil]
+    refine ⟨rfl, fr.1, fr.2.2.2.2.1, ?_⟩
+    rw [hnil] at h0
+    exact h0
   · intro e rest hc
     obtain ⟨hr, hm⟩ := reap_fixed_cons h e rest hc
-    have hg := h.cqGood
-    rw [hc] at hg
-    obtain ⟨_, _, g3⟩ := hg
-    have hcap := h.ccap
+    have hg := h0.cqGood
+    simp only [List.length_nil, Nat.sub_zero, List.nil_append] at hg
+    have hcap := h0.ccap
+    simp only [List.length_nil, Nat.zero_add] at hcap
+    have hk := h0.ckhead_eq
+    simp only [List.length_nil, Nat.sub_zero] at hk
+    have hm' : (relStep s).cqMem e.slot = e.val := by rw [fr.2.2.2.2.1]; exact hm
     rw [step_reap, hr]
-    refine ⟨by simp only [hm], by simp only [hm], ?_⟩
+    refine ⟨by simp only [hm'], by simp only [hm', fr.1], fr.2.2.2.2.1, ?_⟩
+    simp only [hm']
     exact {
-      hk := h.hk, hkc := h.hkc, sqE := h.sqE, sqM := h.sqM, cqE := h.cqE, cqM := h.cqM
-      flushed_eq := h.flushed_eq
-      filled_eq := h.filled_eq
-      cap := h.cap
-      tail_eq := h.tail_eq
-      head_eq := h.head_eq
-      ktail_eq := h.ktail_eq
-      khead_eq := h.khead_eq
-      sqGood := h.sqGood
-      posted_eq := by simp only [h.posted_eq, hc, hm, List.append_assoc, List.singleton_append]
-      ccap := by rw [hc] at hcap; simp only [List.length_cons] at hcap; omega
-      cktail_eq := h.cktail_eq
-      ckhead_eq := by simp only [List.length_append, List.length_cons, List.length_nil]
-      cqGood := by
+      hk := h0.hk, hkc := h0.hkc, sqE := h0.sqE, sqM := h0.sqM, cqE := h0.cqE, cqM := h0.cqM
+      flushed_eq := h0.flushed_eq
+      filled_eq := h0.filled_eq
+      cap := h0.cap
+      tail_eq := h0.tail_eq
+      head_eq := h0.head_eq
+      ktail_eq := h0.ktail_eq
+      khead_eq := h0.khead_eq
+      sqGood := h0.sqGood
+      posted_eq := by
+        show (relStep s).posted = ((relStep s).reaped ++ [e]) ++ rest
+        rw [h0.posted_eq, hc, List.append_assoc, List.singleton_append]
+      hold_suffix := List.suffix_append _ _
+      hold_len := rfl
+      ccap := by rw [hc] at hcap; simp only [List.length_cons, List.length_nil] at hcap ⊢; omega
+      cktail_eq := h0.cktail_eq
+      ckhead_eq := by
+        show (relStep s).cqKHead = _
+        rw [hk]
         simp only [List.length_append, List.length_cons, List.length_nil]
-        rw [← Nat.add_assoc]; exact g3 }
+        congr 1 <;> omega
+      cqGood := by
+        show Good kc (cqShift (relStep s)) (relStep s).cqMem _ _
+        simp only [List.length_append, List.length_cons, List.length_nil, List.singleton_append]
+        have e1 : cc + ((relStep s).reaped.length + 1 - (0 + 1)) = cc + (relStep s).reaped.length := by omega
+        rw [e1, ← hc]; exact hg }
 
 /-! ### kernel: consume -/
 
-theorem inv_consume1 (h : Inv k kc c cc s inq unpub cinq) :
+theorem inv_consume1 (h : Inv k kc c cc s inq unpub cinq hold) :
     (inq = [] → kConsume1 s = (s, none)) ∧
     (∀ e rest, inq = e :: rest →
       (kConsume1 s).2 = some e ∧ (kConsume1 s).1.consumed = s.consumed ++ [e] ∧
       (kConsume1 s).1.filled = s.filled ∧ (kConsume1 s).1.flushed = s.flushed ∧
-      Inv k kc c cc (kConsume1 s).1 rest unpub cinq) := by
+      Inv k kc c cc (kConsume1 s).1 rest unpub cinq hold) := by
   have hE := two_pow_le_30 h.hk
   have hcap := h.cap
   have heq := eq_test c s.consumed.length inq.length (by omega)
@@ -305,13 +404,15 @@ theorem inv_consume1 (h : Inv k kc c cc s inq unpub cinq) :
         simp only [List.length_append, List.length_cons, List.length_nil]
         rw [← Nat.add_assoc]; exact g3
       posted_eq := h.posted_eq
+      hold_suffix := h.hold_suffix
+      hold_len := h.hold_len
       ccap := h.ccap
       cktail_eq := h.cktail_eq
       ckhead_eq := h.ckhead_eq
       cqGood := h.cqGood }
 
-theorem inv_consume (n : Nat) : ∀ {s : St} {inq : List Ent}, Inv k kc c cc s inq unpub cinq →
-    ∃ inq', Inv k kc c cc (kConsume n s).1 inq' unpub cinq ∧
+theorem inv_consume (n : Nat) : ∀ {s : St} {inq : List Ent}, Inv k kc c cc s inq unpub cinq hold →
+    ∃ inq', Inv k kc c cc (kConsume n s).1 inq' unpub cinq hold ∧
       (kConsume n s).1.consumed = s.consumed ++ (kConsume n s).2 ∧
       (kConsume n s).1.filled = s.filled ∧ (kConsume n s).1.flushed = s.flushed := by
   induction n with
@@ -338,16 +439,19 @@ theorem inv_consume (n : Nat) : ∀ {s : St} {inq : List Ent}, Inv k kc c cc s i
 
 /-! ### kernel: post -/
 
-theorem inv_post1 (h : Inv k kc c cc s inq unpub cinq) (v : Nat) :
-    (¬ cinq.length < 2 ^ kc → kPost1 s v = (s, false)) ∧
-    (cinq.length < 2 ^ kc →
+theorem inv_post1 (h : Inv k kc c cc s inq unpub cinq hold) (v : Nat) :
+    (¬ hold.length + cinq.length < 2 ^ kc → kPost1 s v = (s, false)) ∧
+    (hold.length + cinq.length < 2 ^ kc →
       (kPost1 s v).2 = true ∧
       Inv k kc c cc (kPost1 s v).1 inq unpub
-        (cinq ++ [⟨slotOf kc (cqShift s) (cc + s.posted.length), v⟩])) := by
+        (cinq ++ [⟨slotOf kc (cqShift s) (cc + s.posted.length), v⟩]) hold) := by
   have hE := two_pow_le_30 h.hkc
   have hcap := h.ccap
-  have hcnt := count_eq cc s.reaped.length cinq.length (by omega)
-  rw [← h.posted_len, ← h.cktail_eq, ← h.ckhead_eq] at hcnt
+  have hle := h.hold_le
+  have hpl : s.posted.length = (s.reaped.length - hold.length) + (hold.length + cinq.length) := by
+    rw [h.posted_len]; omega
+  have hcnt := count_eq cc (s.reaped.length - hold.length) (hold.length + cinq.length) (by omega)
+  rw [← hpl, ← h.cktail_eq, ← h.ckhead_eq] at hcnt
   constructor
   · intro hge
     have hc : ¬ (W + s.cqKTail - s.cqKHead) % W < s.cqEntries := by rw [hcnt, h.cqE]; exact hge
@@ -357,9 +461,10 @@ theorem inv_post1 (h : Inv k kc c cc s inq unpub cinq) (v : Nat) :
     have hc : (W + s.cqKTail - s.cqKHead) % W < s.cqEntries := by rw [hcnt, h.cqE]; exact hlt
     have hidx := index_eq kc (cqShift s) (cc + s.posted.length) h.hkc (cqShift_le s)
     rw [← h.cktail_eq, ← h.cqM] at hidx
-    have hpush := good_push kc (cqShift s) s.cqMem v cinq (cc + s.reaped.length) h.cqGood hlt
-    have e1 : cc + s.reaped.length + cinq.length = cc + s.posted.length := by
-      rw [h.posted_len]; omega
+    have hpush := good_push kc (cqShift s) s.cqMem v (hold ++ cinq) (cc + (s.reaped.length - hold.length)) h.cqGood
+      (by simp only [List.length_append]; exact hlt)
+    have e1 : cc + (s.reaped.length - hold.length) + (hold ++ cinq).length = cc + s.posted.length := by
+      simp only [List.length_append]; omega
     rw [e1] at hpush
     unfold kPost1
     rw [if_pos hc]
@@ -376,70 +481,138 @@ theorem inv_post1 (h : Inv k kc c cc s inq unpub cinq) (v : Nat) :
       khead_eq := h.khead_eq
       sqGood := h.sqGood
       posted_eq := by simp only [h.posted_eq, List.append_assoc]
+      hold_suffix := h.hold_suffix
+      hold_len := h.hold_len
       ccap := by simp only [List.length_append, List.length_cons, List.length_nil]; omega
       cktail_eq := by
         simp only [List.length_append, List.length_cons, List.length_nil]
         rw [h.cktail_eq, succ_mod]
       ckhead_eq := h.ckhead_eq
-      cqGood := hpush }
+      cqGood := by rw [← List.append_assoc]; exact hpush }
 
 theorem kPost_cons (v : Nat) (vs : List Nat) (s : St) : kPost (v :: vs) s =
     match kPost1 s v with
     | (s1, false) => (s1, 0)
     | (s1, true) => ((kPost vs s1).1, (kPost vs s1).2 + 1) := rfl
 
-theorem inv_post (vs : List Nat) : ∀ {s : St} {cinq : List Ent}, Inv k kc c cc s inq unpub cinq →
-    ∃ cinq', Inv k kc c cc (kPost vs s).1 inq unpub cinq' := by
+theorem kPost1_reaped (s : St) (v : Nat) : (kPost1 s v).1.reaped = s.reaped := by
+  unfold kPost1; split <;> rfl
+
+theorem inv_post (vs : List Nat) : ∀ {s : St} {cinq : List Ent}, Inv k kc c cc s inq unpub cinq hold →
+    ∃ cinq', Inv k kc c cc (kPost vs s).1 inq unpub cinq' hold ∧ (kPost vs s).1.reaped = s.reaped := by
   induction vs with
-  | nil => intro s cinq h; exact ⟨cinq, h⟩
+  | nil => intro s cinq h; exact ⟨cinq, h, rfl⟩
   | cons v vs ih =>
     intro s cinq h
     obtain ⟨h0, h1⟩ := inv_post1 h v
-    by_cases hlt : cinq.length < 2 ^ kc
+    by_cases hlt : hold.length + cinq.length < 2 ^ kc
     · obtain ⟨a1, a2⟩ := h1 hlt
-      obtain ⟨cinq', b⟩ := ih a2
+      obtain ⟨cinq', b, b2⟩ := ih a2
       have hk1 : kPost1 s v = ((kPost1 s v).1, true) := by rw [← a1]
       refine ⟨cinq', ?_⟩
       rw [kPost_cons, hk1]
-      exact b
+      exact ⟨b, by rw [b2, kPost1_reaped]⟩
     · have := h0 hlt
       rw [kPost_cons, this]
-      exact ⟨cinq, h⟩
+      exact ⟨cinq, h, rfl⟩
 
 /-! ### every step and every run preserves the invariant; no step of the current code panics -/
 
-theorem inv_step (h : Inv k kc c cc s inq unpub cinq) (op : Op) :
-    ∃ inq' unpub' cinq', Inv k kc c cc (step .fixed s op).1 inq' unpub' cinq' := by
+theorem step_reread (cd : Code) (s : St) : (step cd s .reread).1 = s := by
+  show (match s.reaped.getLast? with | none => (s, Out.noCqe) | some e => (s, Out.cqe (s.cqMem e.slot))).1 = s
+  cases s.reaped.getLast? <;> rfl
+
+theorem kConsume1_reaped (s : St) : (kConsume1 s).1.reaped = s.reaped := by
+  unfold kConsume1; split <;> rfl
+
+theorem kConsume_reaped (n : Nat) : ∀ (s : St), (kConsume n s).1.reaped = s.reaped := by
+  induction n with
+  | zero => intro s; rfl
+  | succ n ih =>
+    intro s
+    have h1 := kConsume1_reaped s
+    unfold kConsume
+    split
+    · rename_i s1 he; rw [he] at h1; exact h1
+    · rename_i s1 e he; rw [he] at h1
+      simp only at h1 ⊢
+      rw [ih s1, h1]
+
+/-- a step other than `get_next_cqe` keeps what is held (and what was reaped) -/
+theorem inv_step_hold (h : Inv k kc c cc s inq unpub cinq hold) (op : Op) (hop : op ≠ .reap) :
+    ∃ inq' unpub' cinq', Inv k kc c cc (step .fixed s op).1 inq' unpub' cinq' hold ∧
+      (step .fixed s op).1.reaped = s.reaped := by
   cases op with
   | get v =>
     obtain ⟨h1, h2⟩ := inv_get h v
     by_cases hlt : inq.length + unpub.length < 2 ^ k
-    · exact ⟨_, _, _, (h1 hlt).2⟩
-    · rw [h2 hlt]; exact ⟨_, _, _, h⟩
+    · refine ⟨_, _, _, (h1 hlt).2, ?_⟩
+      rw [step_get, getNextSqeSlot_fixed h, if_pos hlt]
+    · rw [h2 hlt]; exact ⟨_, _, _, h, rfl⟩
   | flush =>
     obtain ⟨_, inq', unpub', hi, _, _⟩ := inv_flush h
-    exact ⟨_, _, _, hi⟩
-  | reap =>
-    obtain ⟨h1, h2⟩ := inv_reap h
-    cases hc : cinq with
-    | nil => rw [h1 hc]; exact ⟨_, _, _, h⟩
-    | cons e rest => exact ⟨_, _, _, (h2 e rest hc).2.2⟩
+    refine ⟨_, _, _, hi, ?_⟩
+    rw [step_flush, flush_fixed h]
+    by_cases hne : s.head ≠ s.tail
+    · rw [if_pos hne]
+    · rw [if_neg hne]
+  | reap => exact absurd rfl hop
+  | reread => rw [step_reread]; exact ⟨_, _, _, h, rfl⟩
   | consume n =>
     obtain ⟨inq', hi, _⟩ := inv_consume n h
-    rw [step_consume]; exact ⟨_, _, _, hi⟩
+    rw [step_consume]; exact ⟨_, _, _, hi, kConsume_reaped n s⟩
   | post vs =>
-    obtain ⟨cinq', hi⟩ := inv_post vs h
-    rw [step_post]; exact ⟨_, _, _, hi⟩
+    obtain ⟨cinq', hi, hr⟩ := inv_post vs h
+    rw [step_post]; exact ⟨_, _, _, hi, hr⟩
 
-theorem inv_run (ops : List Op) : ∀ {s : St} {inq unpub cinq : List Ent},
-    Inv k kc c cc s inq unpub cinq →
-    ∃ inq' unpub' cinq', Inv k kc c cc (run .fixed s ops).1 inq' unpub' cinq' := by
+theorem inv_step (h : Inv k kc c cc s inq unpub cinq hold) (op : Op) :
+    ∃ inq' unpub' cinq' hold', Inv k kc c cc (step .fixed s op).1 inq' unpub' cinq' hold' := by
+  by_cases hop : op = .reap
+  · subst hop
+    obtain ⟨h1, h2⟩ := inv_reap h
+    cases hc : cinq with
+    | nil => exact ⟨_, _, _, _, (h1 hc).2.2.2⟩
+    | cons e rest => exact ⟨_, _, _, _, (h2 e rest hc).2.2.2⟩
+  · obtain ⟨_, _, _, hi, _⟩ := inv_step_hold h op hop
+    exact ⟨_, _, _, _, hi⟩
+
+theorem inv_run (ops : List Op) : ∀ {s : St} {inq unpub cinq hold : List Ent},
+    Inv k kc c cc s inq unpub cinq hold →
+    ∃ inq' unpub' cinq' hold', Inv k kc c cc (run .fixed s ops).1 inq' unpub' cinq' hold' := by
   induction ops with
-  | nil => intro s inq unpub cinq h; exact ⟨_, _, _, h⟩
+  | nil => intro s inq unpub cinq hold h; exact ⟨_, _, _, _, h⟩
+  | cons op ops ih =>
+    intro s inq unpub cinq hold h
+    obtain ⟨_, _, _, _, h1⟩ := inv_step h op
+    exact ih h1
+
+/-- below call granularity: as long as `get_next_cqe` is not called again, whatever else happens (any kernel
+step, any other ring method) the held entry keeps its slot and its content -/
+theorem inv_run_hold (ops : List Op) (hops : ∀ op ∈ ops, op ≠ .reap) :
+    ∀ {s : St} {inq unpub cinq : List Ent}, Inv k kc c cc s inq unpub cinq hold →
+    ∃ inq' unpub' cinq', Inv k kc c cc (run .fixed s ops).1 inq' unpub' cinq' hold ∧
+      (run .fixed s ops).1.reaped = s.reaped := by
+  induction ops with
+  | nil => intro s inq unpub cinq h; exact ⟨_, _, _, h, rfl⟩
   | cons op ops ih =>
     intro s inq unpub cinq h
-    obtain ⟨_, _, _, h1⟩ := inv_step h op
-    exact ih h1
+    obtain ⟨_, _, _, h1, hr⟩ := inv_step_hold h op (hops op List.mem_cons_self)
+    obtain ⟨_, _, _, h2, hr2⟩ := ih (fun o ho => hops o (List.mem_cons_of_mem _ ho)) h1
+    exact ⟨_, _, _, h2, by show (run .fixed (step .fixed s op).1 ops).1.reaped = _; rw [hr2, hr]⟩
+
+/-- the held entry's content is in its slot -/
+theorem Inv.held_content (h : Inv k kc c cc s inq unpub cinq hold) (e : Ent) (he : e ∈ hold) :
+    s.cqMem e.slot = e.val := by
+  have hl := h.hold_len
+  have hg := h.cqGood
+  match hold, hl, hg, he with
+  | [x], _, hg, he =>
+    simp only [List.cons_append, List.nil_append] at hg
+    have : e = x := by simpa using he
+    subst this
+    exact hg.2.1
+  | [], _, _, he => cases he
+  | _ :: _ :: _, hl, _, _ => split at hl <;> simp at hl
 
 theorem getNextSqeSlot_fixed_ok (s : St) : ∃ s1 r, getNextSqeSlot .fixed s = .ok s1 r := by
   unfold getNextSqeSlot addU32 subU32
@@ -453,11 +626,26 @@ theorem flush_fixed_ok (s : St) : ∃ s1 r, flushSubmissionQueue .fixed s = .ok 
   exact ⟨_, _, rfl⟩
 
 theorem getNextCqe_ok (cd : Code) (s : St) : ∃ s1 r, getNextCqe cd s = .ok s1 r := by
-  unfold getNextCqe
-  simp only
-  split
-  · exact ⟨_, _, rfl⟩
-  · exact ⟨_, _, rfl⟩
+  cases cd with
+  | fixed =>
+    rw [getNextCqe_fixed]
+    split
+    · exact ⟨_, _, rfl⟩
+    · exact ⟨_, _, rfl⟩
+  | eagerRelease =>
+    show ∃ s1 r, getNextCqeEager .eagerRelease s = .ok s1 r
+    unfold getNextCqeEager
+    simp only
+    split
+    · exact ⟨_, _, rfl⟩
+    · exact ⟨_, _, rfl⟩
+  | orig r =>
+    show ∃ s1 r', getNextCqeEager (.orig r) s = .ok s1 r'
+    unfold getNextCqeEager
+    simp only
+    split
+    · exact ⟨_, _, rfl⟩
+    · exact ⟨_, _, rfl⟩
 
 theorem step_fixed_no_panic (s : St) (op : Op) : (step .fixed s op).2 ≠ .panic := by
   cases op with
@@ -473,6 +661,9 @@ theorem step_fixed_no_panic (s : St) (op : Op) : (step .fixed s op).2 ≠ .panic
     obtain ⟨s1, r, hr⟩ := getNextCqe_ok .fixed s
     rw [step_reap, hr]
     cases r <;> simp
+  | reread =>
+    show (match s.reaped.getLast? with | none => (s, Out.noCqe) | some e => (s, Out.cqe (s.cqMem e.slot))).2 ≠ .panic
+    cases s.reaped.getLast? <;> simp
   | consume n => rw [step_consume]; simp
   | post vs => rw [step_post]; simp
 
